@@ -26,7 +26,7 @@ func frExAttr(mk func(o frOpts) (PathAttributeInterface, error)) frExample {
 		nh, _ := NewPathAttributeNextHop(netip.MustParseAddr("10.0.0.1"))
 		n, _ := NewIPAddrPrefix(netip.MustParsePrefix("10.1.2.0/24"))
 		attrs := append(frBaseAttrs(o), nh, a)
-		return NewBGPUpdateMessage([]PathNLRI{}, attrs, []PathNLRI{{NLRI: n, ID: 1}}), nil
+		return NewBGPUpdateMessage([]PathNLRI{}, attrs, []PathNLRI{{NLRI: n, ID: frPathID(RF_IPv4_UC, o, 0)}}), nil
 	}
 }
 
@@ -41,13 +41,21 @@ func frExNlri(f Family, mk func() ([]NLRI, error)) frExample {
 			if n == nil || isNilNLRI(n) {
 				return nil, fmt.Errorf("nil NLRI in example for %s", f)
 			}
-			pl = append(pl, PathNLRI{NLRI: n, ID: uint32(i + 1)})
+			pl = append(pl, PathNLRI{NLRI: n, ID: frPathID(f, o, i)})
 		}
 		nh := netip.MustParseAddr("10.0.0.1")
 		if f.Afi() == AFI_IP6 {
 			nh = netip.MustParseAddr("2001:db8::1")
 		}
-		reach, err := NewPathAttributeMpReachNLRI(f, pl, nh)
+		var reach *PathAttributeMpReachNLRI
+		var err2 error
+		switch f.Safi() {
+		case SAFI_FLOW_SPEC_UNICAST, SAFI_FLOW_SPEC_VPN:
+			reach, err2 = NewPathAttributeMpReachNLRI(f, pl) // FlowSpec carries no next hop
+		default:
+			reach, err2 = NewPathAttributeMpReachNLRI(f, pl, nh)
+		}
+		err = err2
 		if err != nil {
 			return nil, err
 		}
@@ -74,6 +82,32 @@ func isNilNLRI(n NLRI) bool {
 		return v == nil
 	}
 	return false
+}
+
+// frCanonAttr / frCanonNlri: for examples assembled from struct literals (as the package's tests
+// do) the cached length fields are placeholders; take the object the library itself decodes
+// from its own serialisation as the constructed value.
+func frCanonAttr(p PathAttributeInterface) (PathAttributeInterface, error) {
+	b, err := p.Serialize()
+	if err != nil {
+		return nil, err
+	}
+	q, err := GetPathAttribute(b)
+	if err != nil {
+		return nil, err
+	}
+	if err := q.DecodeFromBytes(b); err != nil {
+		return nil, err
+	}
+	return q, nil
+}
+
+func frCanonNlri(f Family, n NLRI) (NLRI, error) {
+	b, err := n.Serialize()
+	if err != nil {
+		return nil, err
+	}
+	return NLRIFromSlice(f, b)
 }
 
 func frDecodeNlri(f Family, raw []byte) (NLRI, error) {
@@ -130,7 +164,7 @@ var frLsSrv6Sid = []byte{
 }
 
 var frLsAttrNode = []byte{
-	0x80, 0x29, 0x5d,
+	0x80, 0x1d, 0x5d, // BGP-LS attribute, type 29 (RFC 7752 3.3)
 	0x04, 0x00, 0x00, 0x01, 0xFF,
 	0x04, 0x01, 0x00, 0x03, 0x01, 0x02, 0x03,
 	0x04, 0x02, 0x00, 0x03, 0x72, 0x74, 0x72,
@@ -241,7 +275,7 @@ func frExamples() map[string]frExample {
 				},
 			},
 		}
-		return NewPathAttributeTunnelEncap([]*TunnelEncapTLV{NewTunnelEncapTLV(TUNNEL_TYPE_SR_POLICY, subs)}), nil
+		return frCanonAttr(NewPathAttributeTunnelEncap([]*TunnelEncapTLV{NewTunnelEncapTLV(TUNNEL_TYPE_SR_POLICY, subs)}))
 	})
 	m["attr:pmsi"] = frExAttr(func(o frOpts) (PathAttributeInterface, error) {
 		id, err := NewIngressReplTunnelID(netip.MustParseAddr("192.0.2.9"))
@@ -358,8 +392,11 @@ func frExamples() map[string]frExample {
 		if err != nil {
 			return nil, err
 		}
+		return []NLRI{NewEVPNEthernetAutoDiscoveryRoute(rd, esi, 2, 2), r2, r2b, r3, r4, r5, r5b}, nil
+	})
+	m["nlri:l2vpn-evpn-ipmsi"] = frExNlri(RF_EVPN, func() ([]NLRI, error) {
 		rt := NewTwoOctetAsSpecificExtended(EC_SUBTYPE_ROUTE_TARGET, 65000, 1, true)
-		return []NLRI{NewEVPNEthernetAutoDiscoveryRoute(rd, esi, 2, 2), r2, r2b, r3, r4, r5, r5b, NewEVPNIPMSIRoute(rd, 7, rt)}, nil
+		return []NLRI{NewEVPNIPMSIRoute(rd, 7, rt)}, nil
 	})
 	m["nlri:l2vpn-vpls"] = frExNlri(RF_VPLS, func() ([]NLRI, error) {
 		return []NLRI{NewVPLSNLRI(rd, 101, 100, 10, 1000), NewVPLSNLRI(rd2, 102, 100, 10, 2000)}, nil
@@ -367,9 +404,13 @@ func frExamples() map[string]frExample {
 	m["nlri:rtc"] = frExNlri(RF_RTC_UC, func() ([]NLRI, error) {
 		rt := NewTwoOctetAsSpecificExtended(EC_SUBTYPE_ROUTE_TARGET, 65000, 100, true)
 		part := NewRouteTargetMembershipNLRI(65001, rt)
-		part.Length = 64
+		part.Length = 64 // origin AS + the first 32 bits of the route target
+		partc, err := frCanonNlri(RF_RTC_UC, part)
+		if err != nil {
+			return nil, err
+		}
 		return []NLRI{NewRouteTargetMembershipNLRI(65001, rt), NewRouteTargetMembershipNLRI(65002, nil),
-			part, NewRouteTargetMembershipNLRI(0, nil)}, nil
+			partc, NewRouteTargetMembershipNLRI(0, nil)}, nil
 	})
 	m["nlri:ipv4-encap"] = frExNlri(RF_IPv4_ENCAP, func() ([]NLRI, error) {
 		n1, err := NewEncapNLRI(netip.MustParseAddr("10.0.0.1"))
